@@ -85,6 +85,7 @@ package jobqueuecontroller
 //@   modifies jwN, jwKind, jwObj, jwOK, clock, smHas, smVal, heap(utilatomic.counterNode)
 //@   ensures [C05] keeps-store: activejobstore.stwf(storeOf(store))
 //@   ensures [C05] start-only-after-cas: jwN > old(jwN) ==> old(activejobstore.active(storeOf(store), string(rjc.UID))) == oldCount
+//@   ensures [C05] monotone: jwN >= old(jwN) && clock >= old(clock)
 //@   ensures [C05,C07] at-most-one-write-and-it-is-a-start: jwN <= old(jwN) + 1 && (jwN == old(jwN) + 1 ==> isStartWrite(old(jwN), rj))
 //@   ensures [C05,C20] rollback-on-error: result != nil ==> (forall k string :: activejobstore.active(storeOf(store), k) == old(activejobstore.active(storeOf(store), k)))
 //@   ensures [C05] counted-on-success: result == nil ==> jwN == old(jwN) + 1 && jwOK[old(jwN)]
@@ -106,6 +107,7 @@ package jobqueuecontroller
 //@        && wakeKey[old(wakeN)] == nsname(rjc.Namespace, rjc.Name) && wakeAfter[old(wakeN)] >= 1000000000
 //@        && (wakeAfter[old(wakeN)] >= startAfterNs(rj) - clock || wakeAfter[old(wakeN)] == 9223372036854775807))
 //@   ensures [C06,C07] waits-only-with-wakeup: hasStartAfter(rj) && startAfterNs(rj) > clock ==> wakeN == old(wakeN) + 1
+//@   ensures [C06] monotone: jwN >= old(jwN) && clock >= old(clock) && wakeN >= old(wakeN)
 //@   ensures [C06] only-forbid-rejects: jwN <= old(jwN) + 1 && (jwN == old(jwN) + 1 ==> !result0 && isRejectWrite(old(jwN), rj)
 //@        && policyOf(rj) == execution.ConcurrencyPolicyForbid && activeCount + 1 > maxConc(rjc) && (result1 == nil) == jwOK[old(jwN)])
 //@   ensures [C06] forbid-rejects-when-full: result1 == nil && wakeN == old(wakeN) && policyOf(rj) == execution.ConcurrencyPolicyForbid && activeCount + 1 > maxConc(rjc) ==> jwN == old(jwN) + 1 && jwOK[old(jwN)]
@@ -131,3 +133,23 @@ package jobqueuecontroller
 //@        && job.IsQueued(result0[k]) && result0[k].Namespace == rjc.Namespace && result0[k].Labels[jobconfig.LabelKeyJobConfigUID] == string(rjc.UID))
 //@   ensures [C06] oldest-first: result1 == nil ==> (forall a int, b int :: 0 <= a && a < b && b < len(result0) ==> created(result0[a]) <= created(result0[b]))
 //@   ensures [C06] cache-untouched: forall p *execution.Job :: !fresh(p) ==> *p == old(*p)
+
+// a start write for rj was issued during this pass (from log position `from`)
+//@ pure startedSince(from Int, rj *execution.Job) bool = exists k int :: from <= k && k < jwN && isStartWrite(k, rj)
+//@ pure dueAtEntry(rj *execution.Job, entryClock Int) bool = !(hasStartAfter(rj) && startAfterNs(rj) > entryClock)
+
+//@ func PerConfigReconciler.SyncOne
+//@   tags C05, C06, C07, C20
+//@   requires w != nil && typeis(w.client, *JobControl) && unbox(w.client, *JobControl) != nil
+//@   modifies jwN, jwKind, jwObj, jwOK, clock, wakeN, wakeKey, wakeAfter, smHas, smVal, heap(utilatomic.counterNode)
+//@   loop 1 invariant -1 <= rangeindex && rangeindex < len(rjs) && rjc != nil && err == nil
+//@   loop 1 invariant typeis(store, *activejobstore.Store) && activejobstore.stwf(storeOf(store))
+//@   loop 1 invariant jwN >= old(jwN) && clock >= old(clock)
+//@   loop 1 invariant forall k int :: 0 <= k && k < len(rjs) ==> rjs[k] != nil && allocated(rjs[k])
+//@   loop 1 invariant [C06] oldest-first: forall a int, b int :: 0 <= a && a < b && b < len(rjs) ==> created(rjs[a]) <= created(rjs[b])
+//@   loop 1 invariant log-append-only: forall i int :: i < old(jwN) ==> jwKind[i] == old(jwKind[i]) && jwObj[i] == old(jwObj[i]) && jwOK[i] == old(jwOK[i])
+//@   loop 1 invariant [C06] waiting-enqueue-jobs-mean-full: forall a int :: 0 <= a && a <= rangeindex ==>
+//@        (policyOf(rjs[a]) == execution.ConcurrencyPolicyEnqueue && dueAtEntry(rjs[a], old(clock)) && !startedSince(old(jwN), rjs[a]) ==> activeCount + 1 > maxConc(rjc))
+//@   loop 1 invariant [C20] all-writes-ok-so-far: forall k int :: old(jwN) <= k && k < jwN ==> jwOK[k]
+//@   ensures [C05,C06] log-append-only: jwN >= old(jwN) && (forall i int :: i < old(jwN) ==> jwKind[i] == old(jwKind[i]) && jwObj[i] == old(jwObj[i]) && jwOK[i] == old(jwOK[i]))
+//@   ensures [C20] failed-write-is-reported: (exists k int :: old(jwN) <= k && k < jwN && !jwOK[k]) ==> result != nil
